@@ -396,3 +396,209 @@ Proof.
   apply Forall_app. split; [|exact Hb].
   clear IH. induction Hws as [|x ws Hx _ IH']; constructor; [apply layoutW_byte; exact Hx | exact IH'].
 Qed.
+
+(* ------------------------------------------------------------------ *)
+(* a token followed by layout                                           *)
+(* ------------------------------------------------------------------ *)
+(* q cannot match any text that starts with u: u contradicts q's mandatory literal prefix *)
+Definition blocked (q : lrule) (u : str) : bool := negb (fits (fst (mp (lr_re q))) u).
+
+(* Executable side condition: t lexes as one token by some rule R of the
+   list; R itself never consumes c; every earlier rule either never consumes
+   c (so c and what follows cannot make it match), or is contradicted by
+   t ++ [c] on its literal prefix, or cannot start with the first byte of t. *)
+Fixpoint safe_after (l : list lrule) (t : str) (c : N) : bool :=
+  match l with
+  | [] => false
+  | q :: rest =>
+      match rule_match q t with
+      | Some _ => negb (may_consume (lr_re q) c)
+      | None =>
+          (negb (may_consume (lr_re q) c) || blocked q (t ++ [c]) ||
+           match t with
+           | d :: _ => negb (first_may (lr_re q) d) && negb (nullable (lr_re q))
+           | [] => false
+           end) && safe_after rest t c
+      end
+  end.
+
+Lemma token_then_char l : forall t c z R,
+  first_match l t = Some (R, []) -> safe_after l t c = true ->
+  first_match l (t ++ c :: z) = Some (R, c :: z).
+Proof.
+  induction l as [|q l IH]; intros t c z R Hfm Hsafe; cbn [first_match safe_after] in *; [discriminate|].
+  destruct (rule_match q t) as [rest|] eqn:Em.
+  - injection Hfm as <- ->. apply negb_true_iff in Hsafe.
+    unfold rule_match in *. rewrite (match_rest_extend _ c z t Hsafe). rewrite Em. reflexivity.
+  - apply andb_true_iff in Hsafe as [Hq Hrest].
+    assert (Hnone : rule_match q (t ++ c :: z) = None).
+    { apply orb_true_iff in Hq as [Hq|Hq]; [apply orb_true_iff in Hq as [Hq|Hq]|].
+      - apply negb_true_iff in Hq. unfold rule_match in *. rewrite (match_rest_extend _ c z t Hq). rewrite Em. reflexivity.
+      - unfold blocked in Hq. apply negb_true_iff in Hq. unfold rule_match, match_rest.
+        apply mp_sound. replace (t ++ c :: z) with ((t ++ [c]) ++ z) by (rewrite <- app_assoc; reflexivity).
+        apply fits_more. exact Hq.
+      - destruct t as [|d t']; [discriminate|]. apply andb_true_iff in Hq as [Hf Hn].
+        apply negb_true_iff in Hf, Hn. unfold rule_match, match_rest. cbn [app].
+        rewrite (mt_no_first _ d Hf). rewrite Hn. reflexivity. }
+    rewrite Hnone. apply IH; assumption.
+Qed.
+
+Lemma firstn_app_exact {A} (a b : list A) : firstn (length (a ++ b) - length b) (a ++ b) = a.
+Proof.
+  rewrite app_length. replace (length a + length b - length b)%nat with (length a + 0)%nat by lia.
+  rewrite firstn_app_2. cbn [firstn]. apply app_nil_r.
+Qed.
+
+Lemma token_then_layout t c z R :
+  first_match lex_rules t = Some (R, []) -> safe_after lex_rules t c = true ->
+  in_ranges c layoutW = true -> bytes z ->
+  tokenise_raw (t ++ c :: z) = lprepend (tok_of R t) (tokenise_raw z).
+Proof.
+  intros Hfm Hsafe Hc Hz.
+  pose proof (token_then_char lex_rules t c z R Hfm Hsafe) as Hfm'.
+  destruct t as [|d t'].
+  - exfalso. apply first_match_progress in Hfm as [_ Hlt]. cbn [length] in Hlt. lia.
+  - cbn [app] in *. rewrite tokenise_step. rewrite Hfm'.
+    change (d :: t' ++ c :: z) with ((d :: t') ++ c :: z). rewrite firstn_app_exact.
+    rewrite (leading_layout_char c z Hz Hc). reflexivity.
+Qed.
+
+Lemma token_alone t R :
+  first_match lex_rules t = Some (R, []) -> tokenise_raw t = LOk (tok_of R t).
+Proof.
+  intro Hfm. destruct t as [|d t'].
+  - exfalso. apply first_match_progress in Hfm as [_ Hlt]. cbn [length] in Hlt. lia.
+  - rewrite tokenise_step. rewrite Hfm. cbn [length]. rewrite Nat.sub_0_r.
+    change (S (length t')) with (length (d :: t')). rewrite firstn_all.
+    cbn [tokenise_raw lex_raw yq_tokens lprepend]. rewrite app_nil_r. reflexivity.
+Qed.
+
+(* ---- fully spaced texts: token, layout, token, layout, ... ---- *)
+Definition item := (str * N * str)%type.     (* token text, first layout byte, more layout *)
+
+Fixpoint spaced (l : list item) : str :=
+  match l with
+  | [] => []
+  | (t, c, ws) :: rest => t ++ c :: ws ++ spaced rest
+  end.
+
+Definition tok_text (t : str) : list rtok :=
+  match first_match lex_rules t with Some (R, _) => tok_of R t | None => [] end.
+
+Definition item_ok (it : item) : Prop :=
+  let '(t, c, ws) := it in
+  (exists R, first_match lex_rules t = Some (R, [])) /\ safe_after lex_rules t c = true /\
+  in_ranges c layoutW = true /\ layout_run ws /\ bytes t.
+
+Lemma layout_run_bytes ws : layout_run ws -> bytes ws.
+Proof. induction 1 as [|x ws Hx _ IH]; constructor; [apply layoutW_byte; exact Hx | exact IH]. Qed.
+
+Lemma spaced_bytes l : Forall item_ok l -> bytes (spaced l).
+Proof.
+  induction 1 as [|[[t c] ws] l Hit _ IH]; [constructor|].
+  destruct Hit as (_ & _ & Hc & Hws & Ht). cbn [spaced].
+  apply Forall_app. split; [exact Ht|]. constructor; [apply layoutW_byte; exact Hc|].
+  apply Forall_app. split; [apply layout_run_bytes; exact Hws | exact IH].
+Qed.
+
+Lemma spaced_tokens l : Forall item_ok l ->
+  tokenise_raw (spaced l) = LOk (flat_map (fun it : item => tok_text (fst (fst it))) l).
+Proof.
+  induction 1 as [|[[t c] ws] l Hit Hl IH]; [reflexivity|].
+  pose proof (spaced_bytes l Hl) as Hb.
+  destruct Hit as ((R & Hfm) & Hsafe & Hc & Hws & Ht). cbn [spaced flat_map fst].
+  rewrite (token_then_layout t c (ws ++ spaced l) R Hfm Hsafe Hc).
+  - rewrite (leading_layout ws (spaced l) Hws Hb). rewrite IH. cbn [lprepend].
+    unfold tok_text. rewrite Hfm. reflexivity.
+  - apply Forall_app. split; [apply layout_run_bytes; exact Hws | exact Hb].
+Qed.
+
+(* the token list of a fully spaced text does not depend on WHICH layout
+   (blanks, TABs, newlines, how many) separates the tokens *)
+Lemma spaced_layout_insensitive l1 l2 :
+  Forall item_ok l1 -> Forall item_ok l2 ->
+  List.map (fun it : item => fst (fst it)) l1 = List.map (fun it : item => fst (fst it)) l2 ->
+  tokenise_raw (spaced l1) = tokenise_raw (spaced l2).
+Proof.
+  intros H1 H2 Heq. rewrite (spaced_tokens l1 H1), (spaced_tokens l2 H2). f_equal.
+  rewrite !flat_map_concat_map.
+  rewrite <- (map_map (fun it : item => fst (fst it)) tok_text l1).
+  rewrite <- (map_map (fun it : item => fst (fst it)) tok_text l2). rewrite Heq. reflexivity.
+Qed.
+
+(* ---- witnesses ---- *)
+From Coq Require Import String.
+Local Open Scope string_scope.
+Definition S_ (s : String.string) : str := str_of_string s.
+Definition nl : str := [10].
+Definition tab : str := [9].
+
+(* removing the layout around `-` changes the tokens: 3 - 1 against 3-1 and 3 -1 *)
+Lemma minus_number_layout_sensitive :
+  tokenise_raw (S_ "3 - 1") <> tokenise_raw (S_ "3-1") /\
+  tokenise_raw (S_ "3 - 1") <> tokenise_raw (S_ "3 -1") /\
+  tokenise_raw (S_ "3-1") = tokenise_raw (S_ "3 -1").
+Proof. split; [vm_compute; discriminate|]. split; [vm_compute; discriminate | vm_compute; reflexivity]. Qed.
+
+(* a path element swallows what follows without a blank (by design: keys may contain plus, minus, star) *)
+Lemma path_swallows_operator :
+  tokenise_raw (S_ ".a + 1") <> tokenise_raw (S_ ".a+ 1").
+Proof. vm_compute. discriminate. Qed.
+
+(* an unterminated quote after a dot is a path element; a NEWLINE before a
+   later quote turns it into a wrapped path element, a blank does not *)
+Lemma unterminated_wrapped_path_layout_sensitive :
+  tokenise_raw (S_ ".""a" ++ nl ++ S_ "b""")%list <> tokenise_raw (S_ ".""a b""") /\
+  safe_after lex_rules (S_ ".""a") 10 = false /\ safe_after lex_rules (S_ ".""a") 32 = true.
+Proof. split; [vm_compute; discriminate|]. split; vm_compute; reflexivity. Qed.
+
+(* TAB after a path element or after `.` is layout (repaired finding) *)
+Lemma tab_after_path_is_layout :
+  tokenise_raw (S_ ".a" ++ tab ++ S_ "| .b")%list = tokenise_raw (S_ ".a | .b") /\
+  tokenise_raw (S_ "." ++ tab ++ S_ "| .b")%list = tokenise_raw (S_ ". | .b") /\
+  safe_after lex_rules (S_ ".a") 9 = true /\ safe_after lex_rules (S_ ".") 9 = true.
+Proof. repeat split; vm_compute; reflexivity. Qed.
+
+(* the side condition holds for ordinary tokens and a comment before a newline *)
+Definition w_items : list item :=
+  [(S_ ".a", 32, []); (S_ "|", 10, tab); (S_ "select", 9, []); (S_ "(", 32, []); (S_ ".b", 32, []);
+   (S_ "# ) not code (", 10, S_ "  "); (S_ "12", 10, []); (S_ ")", 32, [])].
+
+Lemma spaced_example_ok :
+  forallb (fun it : item => let '(t, c, ws) := it in
+             match first_match lex_rules t with Some (_, []) => true | _ => false end &&
+             safe_after lex_rules t c && in_ranges c layoutW &&
+             forallb (fun x => in_ranges x layoutW) ws && forallb (fun x => (x <? 256)%N) t) w_items = true.
+Proof. vm_compute. reflexivity. Qed.
+
+Definition item_okb (it : item) : bool :=
+  let '(t, c, ws) := it in
+  match first_match lex_rules t with Some (_, []) => true | _ => false end &&
+  safe_after lex_rules t c && in_ranges c layoutW &&
+  forallb (fun x => in_ranges x layoutW) ws && forallb (fun x => (x <? 256)%N) t.
+
+Lemma item_okb_sound it : item_okb it = true -> item_ok it.
+Proof.
+  destruct it as [[t c] ws]. unfold item_okb, item_ok. intro H.
+  apply andb_true_iff in H as [H Hb]. apply andb_true_iff in H as [H Hws].
+  apply andb_true_iff in H as [H Hc]. apply andb_true_iff in H as [Hfm Hsafe].
+  split.
+  - destruct (first_match lex_rules t) as [[R rest]|]; [|discriminate].
+    destruct rest; [|discriminate]. exists R. reflexivity.
+  - split; [exact Hsafe|]. split; [exact Hc|]. split.
+    + unfold layout_run. apply Forall_forall. intros x Hx. rewrite forallb_forall in Hws. apply Hws. exact Hx.
+    + unfold bytes. apply Forall_forall. intros x Hx. rewrite forallb_forall in Hb. apply N.ltb_lt. apply Hb. exact Hx.
+Qed.
+
+Lemma spaced_example :
+  Forall item_ok w_items /\
+  parse_text (spaced w_items) = parse_text (S_ ".a | select(.b 12)").
+Proof.
+  split.
+  - apply Forall_forall. intros it Hin. apply item_okb_sound.
+    pose proof spaced_example_ok as H. rewrite forallb_forall in H. exact (H it Hin).
+  - vm_compute. reflexivity.
+Qed.
+
+Lemma leading_layout_parse ws s : layout_run ws -> bytes s -> parse_text (ws ++ s)%list = parse_text s.
+Proof. intros Hws Hb. unfold parse_text. rewrite (leading_layout ws s Hws Hb). reflexivity. Qed.
